@@ -95,7 +95,7 @@ pub fn make_key(pw: &Option<String>, kf: &Option<Vec<u8>>) -> DatabaseKey {
     if let Some(f) = kf {
         // now and then a wrong file is picked first and then corrected: the key holds the key file given last
         if uses_decoy(f) {
-            k = k.with_keyfile(&mut &b"not the key file, picked by mistake"[..]).unwrap();
+            k = k.with_keyfile(&mut &DECOY[..]).unwrap();
         }
         // the key file arrives through a reader that delivers it in pieces (a pipe, a chained reader): a conforming `Read`
         let cap = [usize::MAX, 1, 7, 512, 4096][(f.len() + f.first().copied().unwrap_or(0) as usize) % 5];
@@ -119,6 +119,9 @@ pub fn large_keyfile(rng: &mut Rng, len: usize) -> Vec<u8> {
     }
     b
 }
+
+/// what `make_key` hands the key first when it picks a wrong file
+pub const DECOY: &[u8] = b"not the key file, picked by mistake";
 
 /// whether `make_key` first hands the key a decoy key file (a function of the key file, so that it replays)
 pub fn uses_decoy(f: &[u8]) -> bool {
